@@ -1,34 +1,34 @@
-(** C04: last owner gone => Dropped; never while owned (Layer R) -- PARTIAL (four of the five clauses of the monitor
-    proved for every program: the whole check at `notify a Dropped` and the whole check at `runret`; the census behind
-    them closed; open: the slab.len() check).
+(** C04: last owner gone => Dropped; never while owned (Layer R) -- FULL for the global / thread-local deferrer.
+    [C04_last_owner_dropped]: for every program and fuel, if the machine (global / thread-local deferrer) terminates
+    with a trace t of fewer than CMAX-1 events, then C04_ok t = true.
+    The two hypotheses are decidable on the trace / the build and cannot be dropped:
+      - the inline deferrer is outside the claim: a kill! queued while no Stakker exists parks an owner that is never
+        released ([C04_inline_deferrer_refuted]: C04_ok is false on the model trace);
+      - the packed owner count saturates at CMAX = 2^62-1 and never comes down again ([C04_saturation]); a trace
+        shorter than that cannot reach it.
     C04_ok (rev t) = okx chkN t && okx chkR t && okx chkS t  ([C04_monitor_split]: the monitor is a total state
-    function [st04] plus three checks: at `notify a Dropped`, at `runret`, at `slablen`).
-    Proved for every program and fuel, global / thread-local deferrer, fewer than CMAX-1 events (the packed owner count
-    saturates at CMAX = 2^62-1: [C04_saturation]):
-      [C04_never_dropped_while_owned]  first clause of chkN: at every `notify a Dropped` the trace shows no visible
-          owner of a (EOwnNew a = EOwnDrop a so far);
-      [C04_last_owner_terminates]      first clause of chkR: when run returns, every actor that lost its last visible
-          owner (owned(), anon() and named handles) since the Stakker was created is notified.
+    function [st04] plus three checks):
+      [C04_notify_check]   at `notify a Dropped`: the trace shows no visible owner of a ([C04_never_dropped_while_owned])
+          and every call to a that was pending when its last visible owner went has been started or discarded - the
+          termination takes the drop's place in the main queue ([C04_drop_takes_queue_place]);
+      [C04_runret_check]   at `runret`: every actor that lost its last visible owner (owned(), anon() and named handles)
+          since the Stakker was created is notified ([C04_last_owner_terminates]), and so are the slab children
+          (ActorOwnSlab) of every notified parent ([C04_slab_children_terminate]);
+      [C04_slab_len]       at `slablen p n`: n is at least the number of children of p not yet notified and at most the
+          number not notified at the last runret.
     Behind them ([C04_owner_census]): in every reachable configuration the count field of a cell's packed
     CountAndState word (generated count_inc / count_dec) = number of owner handles of that actor anywhere in the
     configuration (environment, frames, closure captures, Ret captures, actor state, slabs, held queues, queues,
     timers, queued kill! items, pending owner drops) = invisible owners (slab entries, kill! items, un-logged drops)
     + EOwnNew - EOwnDrop of the trace; the deferred terminate(Dropped) is queued exactly when it goes 1 -> 0.
-    The inline deferrer is excluded: a kill! queued while no Stakker exists parks an owner that is never released
-    ([C04_inline_deferrer_refuted]: C04_ok is false on the model trace).
-      [C04_notify_check]               the whole of chkN, with [C04_drop_takes_queue_place]: at `notify a Dropped` every
-          call to a that was pending when its last visible owner went has been started or discarded (the termination
-          takes the drop's place in the main queue).
-      [C04_runret_check]               the whole of chkR, with [C04_slab_children_terminate]: when run returns, the slab
-          children (ActorOwnSlab) of every notified parent are notified too (the ownership tree terminates in the same run).
-          Behind it (R/C04W*.v, C04K*.v): a wrapper notifier refers to the slab entry that holds its child; at most
-          one slab-removal item per entry, and only after the child's notifier was invoked; a child that left the slab
-          of a live parent is notified; inside run a Stakker is alive; a slab child has one parent.
-    Not yet proved (validated by ./check C04): chkS (slab.len() counts exactly the children not yet terminated). *)
+    For the slab clauses (R/C04W*.v, C04K*.v, C04S*.v): a wrapper notifier refers to the slab entry that holds its
+    child; at most one slab-removal item per entry, made only by that wrapper, run only inside run and never dropped
+    un-run; a child occupies one entry of one parent, is not freed while it sits there (reference census of
+    R/LinRef*.v), and when run returns no child in a slab is notified. *)
 From Coq Require Import ZArith NArith List Bool.
 Import ListNotations.
 From Stk Require Import Lib.U Gen.SrcCount R.Syntax R.Rt R.Mon R.Count R.OneStep.
-From Stk Require Import R.Own R.OwnLaw R.OwnVis R.C04Mon R.C04Base R.C04A3 R.C04B2 R.C04N R.C04K2.
+From Stk Require Import R.Own R.OwnLaw R.OwnVis R.C04Mon R.C04Base R.C04A3 R.C04B2 R.C04N R.C04K2 R.C04S2.
 Local Open Scope Z_scope.
 
 Theorem C04_owner_count_partial :
@@ -98,6 +98,19 @@ Theorem C04_runret_check : forall (p : list top) (fuel : nat) (t : list ev),
 Proof. exact C04_runret_check_proved. Qed.
 Check C04_runret_check.
 Print Assumptions C04_runret_check.
+
+(* slab.len(): between the children not yet notified and those not notified at the last runret *)
+Theorem C04_slab_len : forall (p : list top) (fuel : nat) (t : list ev),
+  exec DGlobal fuel p = Done t -> Z.of_nat (length t) < CMAX - 1 -> okx chkS (rev t) = true.
+Proof. exact C04_slab_len_proved. Qed.
+Print Assumptions C04_slab_len.
+
+(* the property: for every program and fuel, global / thread-local deferrer, below the saturation point *)
+Theorem C04_last_owner_dropped : forall (p : list top) (fuel : nat) (t : list ev),
+  exec DGlobal fuel p = Done t -> Z.of_nat (length t) < CMAX - 1 -> C04_ok t = true.
+Proof. exact C04_proved. Qed.
+Check C04_last_owner_dropped.
+Print Assumptions C04_last_owner_dropped.
 
 (* chkR is the conjunction of its two clauses *)
 Theorem C04_runret_split : forall t, okx chkR t = okx chkR1 t && okx chkR2 t.
